@@ -159,6 +159,31 @@ func wideCases() []*ProgCase {
 			add(fmt.Sprintf("wide/obj/%d", n), ref.Member(ref.Obj(fs, fv), "f"+strconv.Itoa(n-1)), nil)
 		}
 	}
+	// a wide literal built while many other operands are live beneath it
+	for _, outer := range []int{41, 42, 43, 541, 542, 543, 544, 545, 1041, 1043} {
+		for _, inner := range []int{255, 256, 499, 500, 501, 502, 542, 543} {
+			if (outer+inner)%2 == 1 && outer < 500 {
+				continue
+			}
+			outer, inner := outer, inner
+			add(fmt.Sprintf("wide2/%d/%d", outer, inner), ref.Call("len", wideList(outer, func(i int) *ref.E {
+				if i == outer-1 || i == outer/2 {
+					return ref.Call("len", wideList(inner, numLit))
+				}
+				return numLit(i % 7)
+			})), nil)
+			km, vm := make([]*ref.E, inner/2+1), make([]*ref.E, inner/2+1)
+			for i := range km {
+				km[i], vm[i] = numLit(i), numLit(i)
+			}
+			add(fmt.Sprintf("wide2-map/%d/%d", outer, inner), ref.Call("max", wideList(outer, func(i int) *ref.E {
+				if i == outer-1 {
+					return ref.Call("len", ref.Map(km, vm))
+				}
+				return numLit(i % 7)
+			})), nil)
+		}
+	}
 	for _, n := range []int{1, 2, 254, 255, 256} {
 		args := make([]*ref.E, n)
 		for i := range args {
@@ -267,7 +292,7 @@ func runC03(c *run.Ctx) {
 			}
 		})
 	}
-	for i, pc := range lazyCases() {
+	for i, pc := range append(lazyCases(), wideThunkCases()...) {
 		if !c.Mine(i) {
 			continue
 		}
@@ -277,6 +302,22 @@ func runC03(c *run.Ctx) {
 			o := RunProg(pc)
 			c.Distinct(pc.ID)
 			compareBackends(c, o)
+		})
+	}
+	// host functions that mutate their argument: three evaluations of the
+	// same compiled code must all look like the first
+	for i, pc := range mutatingHostCases() {
+		if !c.Mine(i) {
+			continue
+		}
+		pc := pc
+		c.Case(pc.ID, func() {
+			c.Input(pc.Src)
+			for _, o := range RunProgMulti(pc, []*bridge.Env{pc.Env, pc.Env}) {
+				compareBackends(c, o)
+				oracleC04(c, o)
+			}
+			c.Distinct(pc.ID)
 		})
 	}
 }
